@@ -37,19 +37,23 @@ TCh ==
     /\ last' = [a |-> "ch", k |-> TLog[l].k, r |-> TLog[l].r]
     /\ UNCHANGED <<cfg, gen, lst, pc, key, sg, res>>
 
+(*   batch  picks = <<[k, id, c]...>>   tally of a burst of selections by concurrent callers        *)
+TBatch == IsEvent("batch") /\ Batch(ToSet(TLog[l].picks))
+
 (* an observation no contract step explains: report it, and go on with the next trace, so that   *)
 (* one run lists every rejected trace (the driver turns the report into the verdict)             *)
 RECURSIVE NextReset(_)
 NextReset(j) == IF j > Len(TLog) \/ TLog[j].ev = "reset" THEN j ELSE NextReset(j + 1)
 
 TBad ==
-    /\ l <= Len(TLog) /\ TLog[l].ev = "ch"
-    /\ TLog[l].r \notin Allowed(gen, TLog[l].k)
+    /\ l <= Len(TLog)
+    /\ \/ TLog[l].ev = "ch" /\ TLog[l].r \notin Allowed(gen, TLog[l].k)
+       \/ TLog[l].ev = "batch" /\ ~BatchOK(ToSet(TLog[l].picks))
     /\ PrintT(<<"VERIF_REJECT", l>>)
     /\ l' = NextReset(l)
     /\ UNCHANGED vars
 
-TNext == TReset \/ TRep \/ TCh \/ TBad
+TNext == TReset \/ TRep \/ TCh \/ TBatch \/ TBad
 
 TInit ==
     /\ l = 1
